@@ -368,6 +368,7 @@ class Ctx:
         self.notes = []
         self.known = load_known()
         self.quick = tier == "quick"
+        self.escalated = False
 
     # --- counting
     def count(self, key, n=1):
@@ -391,6 +392,11 @@ class Ctx:
         self.violations.append((what, replay, no_input))
 
     def finish(self, level="proof", checker_cmd="", explanation=""):
+        if (self.violations and all(v[2] for v in self.violations) and not self.escalated and self.tier == "quick"
+                and os.environ.get("VERIF_NO_ESCALATE") != "1"):
+            # a proof obligation or a correspondence broke but the normal budget found no failing input:
+            # search again with the thorough budget before reporting no-failing-input-found
+            return 99
         wall = time.time() - self.t0
         os.makedirs(EVID, exist_ok=True)
         ob = len(self.obligations)
